@@ -317,7 +317,7 @@ func TestHasherLaws(t *testing.T) {
 var expiryCases atomic.Int64
 
 func TestRetentionWindow(t *testing.T) {
-	maxCases := int64(lib.Pick(60, 400))
+	maxCases := int64(lib.Pick(60, 800))
 	rapid.Check(t, func(t *rapid.T) {
 		if expiryCases.Add(1) > maxCases {
 			t.Skip("expiry case budget of this process used (each repository leaks a ticker goroutine)")
